@@ -361,10 +361,10 @@ func TestC09(t *testing.T) {
 		for v := 0; v < variants; v++ {
 			for _, mode := range modes {
 				idx++
-				if !cfg.Mine(idx) {
+				seed := cfg.CaseSeed("C09", oi*100+v)
+				if !cfg.Want(idx, seed) {
 					continue
 				}
-				seed := cfg.CaseSeed("C09", oi*100+v)
 				// fault-free twin
 				var twinAbs []string
 				var twinErr error
